@@ -955,6 +955,80 @@ bool cliQasmFileCheckOnce(const qh::Plan& plan, int shots, std::string& detail, 
     return true;
 }
 
+
+// ---- CLI clause of C02: over the shots of a run, the tracked table reports exactly the bits the measurements returned ----
+// A helper declares a tracked qubit, rotates it and returns the measured bit; main calls it k times per shot and echoes
+// every returned bit (--echo=all). The aggregate table of that variable must hold one outcome per call and per shot,
+// and its '1' count must be the number of echoed ones.
+struct TrackedCli { int k = 3, shots = 2, angle = 7; bool annotate = false; uint64_t seed = 1, run = 0; };
+Json trackedCliJson(const TrackedCli& t) {
+    return Json::object().set("engine", "qhist").set("level", "cli_tracked").set("calls_per_shot", t.k).set("shots", t.shots).set("angle", t.angle).set("annotate", t.annotate)
+        .set("rng_seed", Json((unsigned long long)t.seed)).set("rng_run", Json((unsigned long long)t.run));
+}
+std::string trackedCliSource(const TrackedCli& t) {
+    qh::Op a;
+    a.angle = t.angle;
+    std::string s = "@quantum\nfunction sample() -> bit {\n    @tracked qubit q;\n    ry(q, " + qh::angleText(a) + ");\n    return measure q;\n}\n";
+    if (t.annotate) s += "@shots(" + std::to_string(t.shots) + ")\n";
+    s += "function main() -> void {\n    for (int i = 0; i < " + std::to_string(t.k) + "; i = i + 1) {\n        bit b = sample();\n        echo(\"bit=\" + b);\n    }\n}\n";
+    return s;
+}
+bool trackedCliCheck(const TrackedCli& t, std::string& detail) {
+    std::string file = g_scratch + "/tracked.bloch";
+    sim::writeFile(file, trackedCliSource(t));
+    std::vector<std::string> args = {"bloch"};
+    if (!t.annotate) args.push_back("--shots=" + std::to_string(t.shots));
+    args.push_back("--echo=all");
+    args.push_back(file);
+    std::vector<char*> av;
+    for (auto& a : args) av.push_back(const_cast<char*>(a.c_str()));
+    g_rng.reset(t.seed ^ 0x7ac4edull, t.run);
+    gcs::g_observer = nullptr;
+    gcs::install();
+    gcs::Schedule s;
+    s.generative = true;
+    s.meanIncNs = 1000000;
+    g_rng.install();
+    std::string out;
+    int rc;
+    {
+        CoutCapture cap;
+        gcs::beginRun(s);
+        rc = cli::run((int)av.size(), av.data(), cli::Context{});
+        gcs::endRun();
+        out = cap.out.str();
+    }
+    rngs::Provider::uninstall();
+    if (rc != 0) { detail = "cli::run returned " + std::to_string(rc); return false; }
+    long ones = 0, zeros = 0, t1 = -1, t0 = -1, other = 0;
+    bool inTable = false;
+    std::string cur;
+    auto line = [&](const std::string& l) {
+        if (l == "bit=1") { ++ones; return; }
+        if (l == "bit=0") { ++zeros; return; }
+        if (l == "qubit q") { inTable = true; return; }
+        if (!inTable) return;
+        size_t a = l.find(" | ");
+        if (a == std::string::npos) return;
+        std::string oc = l.substr(0, a);
+        while (!oc.empty() && oc.back() == ' ') oc.pop_back();
+        long cnt = atol(l.c_str() + a + 3);
+        if (oc == "1") t1 = cnt; else if (oc == "0") t0 = cnt; else if (oc != "outcome") other += cnt;
+    };
+    for (char c : out) { if (c == '\n') { line(cur); cur.clear(); } else cur.push_back(c); }
+    if (!cur.empty()) line(cur);
+    long total = (long)t.k * t.shots;
+    if (t.shots == 1 && !t.annotate) { /* '--shots=1' still prints the summary */ }
+    if (ones + zeros != total) { detail = std::to_string(ones + zeros) + " returned bits echoed, expected " + std::to_string(total); return false; }
+    long g1 = t1 < 0 ? 0 : t1, g0 = t0 < 0 ? 0 : t0;
+    if (!inTable && total > 0) { detail = "no table for the tracked qubit was printed"; return false; }
+    if (g1 != ones || g0 != zeros || other != 0) {
+        detail = "the measurements returned " + std::to_string(ones) + " ones and " + std::to_string(zeros) + " zeros over " + std::to_string(t.shots) + " shot(s) of " + std::to_string(t.k) + " call(s), but the tracked table reports 1:" + std::to_string(g1) + " 0:" + std::to_string(g0) + " other:" + std::to_string(other);
+        return false;
+    }
+    return true;
+}
+
 // ================================================================================================
 // plans, runs, shrinking
 // ================================================================================================
@@ -1131,6 +1205,34 @@ void runOne(const sim::Options& opt, uint64_t run, sim::RunReport& rep) {
         fprintf(stderr, "rejected (run %llu): %s\n", (unsigned long long)run, detail.c_str());
         return;
     }
+    // CLI clause of C02 on a sample of runs: the shot loop's table against the returned bits
+    if (property == "C02" && run % 16 == 5 && cls.empty()) {
+        sim::Rng tk(opt.seed, "tracked_cli", run);
+        TrackedCli t;
+        t.k = tk.range(1, 6);
+        static const int shotChoices[] = {1, 2, 3, 5, 9};
+        t.shots = shotChoices[tk.below(5)];
+        static const int angles[] = {1, 6, 7, 8, 9, 10, 11, 12};
+        t.angle = angles[tk.below(8)];
+        t.annotate = tk.chance(0.4);
+        t.seed = opt.seed;
+        t.run = run;
+        rep.count("cli.tracked_table_checks");
+        if (t.k > 1 && t.shots > 1) rep.count("cli.tracked_scope_left_several_times_per_shot_in_multi_shot_run");
+        std::string d1, d2;
+        bool ok1 = trackedCliCheck(t, d1);
+        if (!ok1) {
+            bool ok2 = trackedCliCheck(t, d2);
+            sim::Violation v;
+            v.cls = "tracked_table_differs_from_returned_bits";
+            v.signature = "cli:tracked_table_differs_from_returned_bits";
+            v.detail = d1;
+            v.reproducible = !ok2 && d1 == d2;
+            v.plan = trackedCliJson(t);
+            rep.violations.push_back(std::move(v));
+            return;
+        }
+    }
     // CLI clause of C05 on a sample of runs
     if (property == "C05" && run % 8 == 1 && cls.empty() && po.status == 0) {
         std::string d;
@@ -1265,7 +1367,16 @@ int doReplay(const sim::Options& opt) {
     std::string property = opt.property.empty() ? file.at("engine_property").asStr() : opt.property;
     uint64_t seed = pj.at("rng_seed").asU64(1), run = pj.at("rng_run").asU64(0);
     std::string cls, detail;
-    if (pj.at("level").asStr() == "simulator") {
+    if (pj.at("level").asStr() == "cli_tracked") {
+        TrackedCli t;
+        t.k = (int)pj.at("calls_per_shot").asInt();
+        t.shots = (int)pj.at("shots").asInt();
+        t.angle = (int)pj.at("angle").asInt();
+        t.annotate = pj.at("annotate").asBool();
+        t.seed = seed;
+        t.run = run;
+        if (!trackedCliCheck(t, detail)) cls = "tracked_table_differs_from_returned_bits";
+    } else if (pj.at("level").asStr() == "simulator") {
         std::vector<SimOp> ops;
         for (auto& e : pj.at("ops").a) ops.push_back(simOpFrom(e));
         g_rng.reset(seed, run);
@@ -1367,6 +1478,7 @@ int main(int argc, char** argv) {
     // vacuity guard
     std::vector<std::string> mandatory = {"rng.words_drawn", "sim.measures", "sim.resets", "sim.entangled_resets", "sim.boundary_draws", "prog.boundaries_checked", "prog.reuse_events", "prog.genuine_resets", "prog.boundary_draws"};
     if (opt.property == "C06") { mandatory.push_back("prog.ended_with_runtime_error"); mandatory.push_back("sim.guard_probes"); }
+    if (opt.property == "C02") { mandatory.push_back("cli.tracked_table_checks"); mandatory.push_back("cli.tracked_scope_left_several_times_per_shot_in_multi_shot_run"); }
     if (opt.property == "C05") { mandatory.push_back("cli.qasm_file_checks"); mandatory.push_back("cli.source_named_through_symlink_dotdot"); }
     if (R.runs >= 1000 && !g_bigReg) {
         for (auto& m : mandatory)
